@@ -142,6 +142,12 @@ NcCases == { Case("nc", [Base EXCEPT !.isCa = CaU, !.nc = [k |-> "some", perm |-
                                                          excl |-> IF side = "excl" THEN <<st>> ELSE <<>>]],
                   TRUE, "ed25519", "ed25519", Kid("sha256"), "keypair") : st \in SubtreeVariants, side \in {"perm", "excl"} }
 
+(* lists of several subtrees in orders that are not the order of their encodings (a SEQUENCE keeps the caller's order) *)
+NcOrderCases == { Case("nc", [Base EXCEPT !.isCa = ca, !.nc = [k |-> "some", perm |-> pm, excl |-> ex]], self, "ed25519", "ed25519", Kid("sha256"), "keypair") :
+                    ca \in {CaU, NoCa}, self \in Bool,
+                    pm \in { <<>>, <<StIp(V6, 64), St("dns", "$dom"), StIp(V4, 24)>>, <<StIp(V4, 24), StIp(V6, 64)>>, <<StIp(V6, 64), StIp(V4, 24)>>, <<St("rfc822", "$mdom"), St("dns", "$dom")>> },
+                    ex \in { <<>>, <<StIp(V6, 64), StIp(V4, 9)>>, <<St("dns", "$dom2"), St("dns", "$dom")>> } }
+
 DnKinds == {"utf8", "printable", "ia5", "teletex", "bmp", "universal"}
 (* arcs at the limits of 64 bit arithmetic (2^64 - 1, 2^64 - 128, 2^57 and 2^57 - 1: the last value that may still be shifted by 7) *)
 DnTypes == {"2.5.4.6", "2.5.4.7", "2.5.4.8", "2.5.4.10", "2.5.4.11", "2.5.4.3", "1.2.3.4.5.6", "2.999.1.2", "2.40.3", "0.9.2342.19200300.100.1.25",
@@ -257,7 +263,7 @@ SameNameCases == { Case("same-name", [Base EXCEPT !.dn = IssuerDn, !.isCa = ca, 
 Kid200 == [i \in 1..200 |-> (i * 7) % 256]
 VeryLongKidCases == { Case("longkid", [Base EXCEPT !.isCa = CaU, !.aki = TRUE, !.kid = KidPre(SubSeq(Kid200, 1, n))], self, "ed25519", "ed25519", KidPre(SubSeq(Kid200, 1, m)), "keypair") :
                         n \in {125, 126, 127, 128, 200}, m \in {125, 126, 127, 128, 129, 200}, self \in Bool }
-Cases == CustomDupCases \cup SoleSourceCases \cup SameNameCases \cup VeryLongKidCases \cup CsrPathCases \cup BadStringCases \cup PathLenKuCases \cup OutsideIssuerCases \cup LongKidCases \cup AutoSerialCases \cup PresenceCases \cup KuCases \cup PathLenCases \cup PrefixCases \cup SanCases \cup NcCases \cup DnCases
+Cases == NcOrderCases \cup CustomDupCases \cup SoleSourceCases \cup SameNameCases \cup VeryLongKidCases \cup CsrPathCases \cup BadStringCases \cup PathLenKuCases \cup OutsideIssuerCases \cup LongKidCases \cup AutoSerialCases \cup PresenceCases \cup KuCases \cup PathLenCases \cup PrefixCases \cup SanCases \cup NcCases \cup DnCases
          \cup KidCases \cup SerialCases \cup EkuCases \cup CustomCases \cup CustomAkiCases \cup IssuerKindCases \cup AlgCases
 
 (* ---- abstract keys for the model (the harness substitutes real keys and real digests) ---- *)
